@@ -1982,3 +1982,189 @@ func ruleC14LoadedRecordsNotModified(c *Ctx) {
 	}
 	c.ok("appencryption/loaded-records", "", "no received key record is written to")
 }
+
+// ---------------------------------------------------------------------------------------------
+// string templates: what a string-valued expression looks like as "constant text with %s holes"
+
+// stringTemplate renders v as a format with one %s per non-constant operand: constants, `+` concatenations, fmt.Sprintf
+// with a constant format, strings.Join of a literal / variadic list with a constant separator, and same-package helpers
+// that return such an expression of their parameters (bound to the arguments of the call being looked at).
+func stringTemplate(v ssa.Value, bind map[*ssa.Parameter]ssa.Value, depth int) (string, []ssa.Value, bool) {
+	if depth > 4 {
+		return "", nil, false
+	}
+	v = resolve(v)
+	if p, ok := v.(*ssa.Parameter); ok {
+		if a, has := bind[p]; has {
+			return stringTemplate(a, nil, depth+1)
+		}
+		return "%s", []ssa.Value{v}, true
+	}
+	if k, isC := constOf(v); isC && k.Kind() == constant.String {
+		return strings.ReplaceAll(constant.StringVal(k), "%", "%%"), nil, true
+	}
+	switch x := v.(type) {
+	case *ssa.BinOp:
+		if x.Op == token.ADD {
+			f1, p1, ok1 := stringTemplate(x.X, bind, depth+1)
+			f2, p2, ok2 := stringTemplate(x.Y, bind, depth+1)
+			if ok1 && ok2 {
+				return f1 + f2, append(p1, p2...), true
+			}
+		}
+	case *ssa.Call:
+		if staticIs(x, "fmt.Sprintf") && len(x.Call.Args) == 2 {
+			if k, isC := constOf(resolve(x.Call.Args[0])); isC && k.Kind() == constant.String {
+				var parts []ssa.Value
+				for _, a := range varargValues(x.Call.Args[1]) {
+					if mi, isMI := a.(*ssa.MakeInterface); isMI {
+						a = mi.X
+					}
+					if p, isP := resolve(a).(*ssa.Parameter); isP {
+						if b, has := bind[p]; has {
+							a = b
+						}
+					}
+					parts = append(parts, a)
+				}
+				return constant.StringVal(k), parts, true
+			}
+			return "", nil, false
+		}
+		if staticIs(x, "strings.Join") && len(x.Call.Args) == 2 {
+			sep, isC := constOf(resolve(x.Call.Args[1]))
+			if !isC || sep.Kind() != constant.String {
+				return "", nil, false
+			}
+			var elems []ssa.Value
+			list := resolve(x.Call.Args[0])
+			if p, isP := list.(*ssa.Parameter); isP {
+				if b, has := bind[p]; has {
+					elems = varargValues(b)
+					if elems == nil {
+						return "", nil, false
+					}
+				} else {
+					return "", nil, false
+				}
+			} else {
+				elems = varargValues(x.Call.Args[0])
+				if elems == nil {
+					return "", nil, false
+				}
+			}
+			var fs []string
+			var parts []ssa.Value
+			for _, e := range elems {
+				f, p, ok := stringTemplate(e, nil, depth+1)
+				if !ok {
+					return "", nil, false
+				}
+				fs = append(fs, f)
+				parts = append(parts, p...)
+			}
+			return strings.Join(fs, strings.ReplaceAll(constant.StringVal(sep), "%", "%%")), parts, true
+		}
+		if h := staticCallee(x); h != nil && h.Blocks != nil && x.Parent() != nil && h.Pkg == x.Parent().Pkg && h.Signature.Results().Len() == 1 {
+			rets := returnsOf(h)
+			if len(rets) != 1 {
+				return "", nil, false
+			}
+			nb := map[*ssa.Parameter]ssa.Value{}
+			for k, p := range h.Params {
+				if k < len(x.Call.Args) {
+					a := x.Call.Args[k]
+					if ap, isP := resolve(a).(*ssa.Parameter); isP {
+						if b, has := bind[ap]; has {
+							a = b
+						}
+					}
+					nb[p] = a
+				}
+			}
+			return stringTemplate(rets[0].Results[0], nb, depth+1)
+		}
+	}
+	if b, isB := v.Type().Underlying().(*types.Basic); isB && b.Info()&types.IsString != 0 {
+		return "%s", []ssa.Value{v}, true
+	}
+	return "", nil, false
+}
+
+// ---------------------------------------------------------------------------------------------
+// the in-memory metastore's per-id sub-map obtained through a helper
+
+// subMapHelper: h is a function of the persistence package that does nothing but look its parameter up in the Envelopes
+// map and hand back the sub-map (and, optionally, the comma-ok flag of that very look-up). It returns the index of the
+// parameter that is the id.
+func subMapHelper(h *ssa.Function) (int, bool) {
+	if h == nil || h.Blocks == nil {
+		return 0, false
+	}
+	res := h.Signature.Results()
+	if res.Len() < 1 || res.Len() > 2 {
+		return 0, false
+	}
+	if _, isMap := res.At(0).Type().Underlying().(*types.Map); !isMap {
+		return 0, false
+	}
+	idx := -1
+	for _, r := range returnsOf(h) {
+		v := resolve(returnedValue(r, 0))
+		var lk *ssa.Lookup
+		switch x := v.(type) {
+		case *ssa.Lookup:
+			lk = x
+		case *ssa.Extract:
+			lk, _ = x.Tuple.(*ssa.Lookup)
+			if x.Index != 0 {
+				return 0, false
+			}
+		}
+		if lk == nil || !strings.HasSuffix(accessPath(lk.X), ".Envelopes") {
+			return 0, false
+		}
+		p, isP := resolve(lk.Index).(*ssa.Parameter)
+		if !isP {
+			return 0, false
+		}
+		k := -1
+		for j, q := range h.Params {
+			if q == p {
+				k = j
+			}
+		}
+		if k < 0 || (idx >= 0 && idx != k) {
+			return 0, false
+		}
+		idx = k
+		if len(r.Results) == 2 {
+			ok2, isE := resolve(returnedValue(r, 1)).(*ssa.Extract)
+			if !isE || ok2.Tuple != ssa.Value(lk) || ok2.Index != 1 {
+				return 0, false
+			}
+		}
+	}
+	return idx, idx >= 0
+}
+
+// subMapFromHelper: v is the sub-map (result 0) of a call to a subMapHelper; returns the id argument of that call.
+func subMapFromHelper(v ssa.Value) (ssa.Value, *ssa.Call, bool) {
+	v = resolve(v)
+	if ex, ok := v.(*ssa.Extract); ok {
+		if ex.Index != 0 {
+			return nil, nil, false
+		}
+		v = ex.Tuple
+	}
+	cv, ok := v.(*ssa.Call)
+	if !ok {
+		return nil, nil, false
+	}
+	h := staticCallee(cv)
+	k, isH := subMapHelper(h)
+	if !isH || k >= len(cv.Call.Args) {
+		return nil, nil, false
+	}
+	return cv.Call.Args[k], cv, true
+}
